@@ -292,7 +292,7 @@ def run_obligation(spec):
             # (3) inferred parameters non-negative (decided for one EM step; after two steps the sign query is a
             #     quotient of quartics that z3 does not settle in time and is not claimed); w symmetric (diagonal when
             #     assortative) for every n_iter
-            sign = n_iter == 1
+            sign = n_iter == 1 and K <= 2  # K = 3: z3 answers unknown on the sign of the quotient (not claimed)
             if given != "both":
                 if w is None:
                     for a in range(K):
